@@ -342,7 +342,8 @@ def check(prop, tier, seed=0, only=None, jobs=None):
                 continue
             k = (bool(v.get('candidate')), v.get('key'))
             ncls = sum(1 for c in chosen if bool(c.get('candidate')) == k[0])
-            if per_key.get(k, 0) < 5 and ncls < (8 if k[0] else 20):
+            # candidates of the concretisation fallback (at most 20 per obligation, five models per unsupported path) are all replayed
+            if per_key.get(k, 0) < (20 if k[0] else 5) and ncls < 20:
                 per_key[k] = per_key.get(k, 0) + 1
                 chosen.append(v)
         rr = run_replays([dict(v['replay'], property=prop) for v in chosen])
@@ -418,6 +419,8 @@ def check(prop, tier, seed=0, only=None, jobs=None):
                 print(r.get('trace'))
             for v in r.get('violations', [])[:5]:
                 print('      violating path: %s key=%s confirmed=%s' % (v.get('msg'), v.get('key'), (v.get('confirmed') or {}).get('observed')))
+                if os.environ.get('VSYM_VERBOSE') == '2':
+                    print('         spec=%s\n         res=%s' % (json.dumps(v.get('replay'), default=str)[:600], v.get('confirmed')))
     return exit_code
 
 
